@@ -657,6 +657,19 @@ class CallMixin:
         n0 = heap.get('$next', z3.Int('H%s_$next' % epoch))
         return [Res(p, VBool(z3.And(v.t >= n0, v.t < next_ref(p))))]
 
+    def sp_lsi(self, node, p, fc):
+        """lsi(s, i): the one-element list [(s, i)]"""
+        a = self.ev(node.args[0], p, fc)[0].v
+        b = self.ev(node.args[1], p, fc)[0].v
+        st = a.get('str') if isinstance(a, VUnion) else a.t
+        it = b.get('int') if isinstance(b, VUnion) else as_int(b)
+        return [Res(p, VList(z3.Unit(PairSI.mk_si(st, it)), 'pair_si'))]
+
+    def sp_lstr(self, node, p, fc):
+        a = self.ev(node.args[0], p, fc)[0].v
+        st = a.get('str') if isinstance(a, VUnion) else a.t
+        return [Res(p, VList(z3.Unit(st), 'str'))]
+
     def sp_fn(self, node, p, fc):
         """fn('qualified.name'): the code of a repo function as stored in timers (t_fn)"""
         return [Res(p, VInt(fn_code(ast.literal_eval(node.args[0]))))]
@@ -793,7 +806,8 @@ class CallMixin:
         if not isinstance(lam, ast.Lambda):
             raise Unsupported('forall needs a lambda')
         names = [a.arg for a in lam.args.args]
-        bound = [z3.Int('q_%s_%d' % (n, self._qid())) for n in names]
+        outer = getattr(fc, 'bound', {})
+        bound = [z3.Int('q_%s' % n if n not in outer else 'q_%s_%d' % (n, self._qid())) for n in names]
         saved = p.env
         p.env = dict(p.env)
         for n, b in zip(names, bound):
